@@ -30,9 +30,20 @@ DOUBLES = [0.0, -0.0, 1.5, 0.1, -2.5, 5e-324, 1.7976931348623157e308, float("inf
            9007199254740993, 2.0 ** -149]
 UNENCODABLE = ["\ud800", "ok\udc80", "\ud83d\ude00"]  # lone surrogates: not Unicode text, cannot be written as UTF-8
 STRINGS = ["", "a", "é", "€", "𝄞", "\x00", "a\nb\"\\", "x" * 63, "x" * 64, "é" * 32, "y" * 65, "€" * 2731, "z" * 8192,
-           "\ufeffhello", "\ufeff", "NaN", "Infinity", "-Infinity"]  # a leading U+FEFF is text, not a byte-order mark; number-like words are strings
+           "\ufeffhello", "\ufeff", "NaN", "Infinity", "-Infinity", "12", "1e3", "nan", " 7 ", "-inf", "1_0"]  # a leading U+FEFF is text, not a byte-order mark; number-like words are strings
 BYTESES = [b"", b"a", b"\x00", b"\xff\xfe", bytes(range(256)), b"q" * 63, b"q" * 64, b"q" * 65, b"r" * 8192, bytearray(b"ba")]
 LONG_N = (63, 64, 65)
+
+
+class StrKey(str):
+    def __str__(self):
+        return "StrKey." + str.upper(self)
+
+    def __repr__(self):
+        return str.__repr__(self)
+
+    def __reduce__(self):
+        return (StrKey, (str.__str__(self),))
 
 
 def leaf(n):
@@ -183,6 +194,7 @@ def variants(node, defs, k, hints=True, in_union=False, stack=(), big=True):
             out.append(({"": b}, 1))
             out.append(({"é\x00": b}, 1))
             out.append(({"\ufeffk": b, "k": b}, 1))
+            out.append(({StrKey("email"): b, "k": b}, 1))  # a str subclass with its own __str__ is the string it holds
             out.append(({"k" * 64: b}, 1))
             if big:
                 out.append(({"k%d" % i: b for i in range(64)}, 1))
